@@ -1,6 +1,6 @@
 (* C16 - Buffered and text stream wrappers are transparent to chunking.
    This file contains only statements closed by `exact` and their Print Assumptions.
-   Part 1: pure/Buffered.v (BufferedByteReceiveStream, HEAD = pinned tree + fixes F27 F28 F29);
+   Part 1: pure/Buffered.v (BufferedByteReceiveStream, HEAD = pinned tree + fixes F27 F28 F29 F43);
    part 2: pure/Text.v (TextReceiveStream / TextSendStream).
    `step_log s o = (s', r, lg)`: one call; lg = the bytes that entered the wrapper during it, in order.
    `Until d m fs`: receive_until(d, m) during whose waits other tasks call feed_data(fs_1), feed_data(fs_2), ... *)
